@@ -221,6 +221,11 @@ def internal_dup_only(Mx, impl, m):
     v = m.ask({"op": "schema_check", "model": M2, "implemented": impl})
     return v.get("violations") == []
 
+class SyncMark:
+    def on_field_execution(self, da, nxt, parent, args, ctx, info): return None
+class AsyncMark:
+    async def on_field_execution(self, da, nxt, parent, args, ctx, info): return await nxt(parent, args, ctx, info)
+
 _uid = itertools.count()
 async def try_build(M, opts, seed):
     from tartiflette import create_engine, Scalar, Directive
@@ -230,12 +235,9 @@ async def try_build(M, opts, seed):
         if d["kind"] == "scalar" and d["name"] not in opts.get("withhold", []):
             try: Scalar(d["name"], schema_name=name)(er.CustomScalar())
             except Exception: pass
-    if opts.get("sync_hook"):
-        class Mark:
-            def on_field_execution(self, da, nxt, parent, args, ctx, info): return None
-    else:
-        class Mark:
-            async def on_field_execution(self, da, nxt, parent, args, ctx, info): return await nxt(parent, args, ctx, info)
+    # the implementation CLASSES are shared by every build of the run (a verdict remembered per class must not leak
+    # from one schema name to the next)
+    Mark = SyncMark if opts.get("sync_hook") else AsyncMark
     reg_error = None
     for dd in {d["name"]: d for d in M["directives"]}.values():
         try: Directive(dd["name"], schema_name=name)(Mark())
